@@ -92,6 +92,32 @@ void profile_cfg_more(const std::string &prof, uint64_t seed, RunCfg &c, Rng &r)
     for (auto &sv : c.servers) sv.cookie_mode = r.chance(0.3) ? CK_GOOD : CK_NONE;
     c.server_source = 0;
     c.resolv_conf = "nameserver 10.99.99.99\n";
+  } else if (prof == "C20") {
+    c.allow_cancel_in_cb = 0;
+    int f = ARES_FLAG_NOALIASES | ARES_FLAG_NOSEARCH;
+    if (r.chance(0.8)) f |= ARES_FLAG_EDNS;
+    if (r.chance(0.55)) f |= ARES_FLAG_USEVC;
+    if (r.chance(0.2)) f |= ARES_FLAG_IGNTC;
+    if (r.chance(0.4)) f |= ARES_FLAG_STAYOPEN;
+    if (r.chance(0.2)) f |= ARES_FLAG_DNS0x20;
+    c.flags = f;
+    c.tries = 3; c.timeout_ms = 5000; c.maxtimeout_ms = -1;
+    c.udp_max_queries = -1; c.rotate = 0;
+    c.qcache_max_ttl = 0;
+    c.set_domains = 1; c.domains.clear(); c.lookups = "b";
+    c.pending_write_cb = r.chance(0.5); c.tfo = r.chance(0.5);
+    c.beh_w = {84, 0, 0, 0, 0, 0, 14, 0, 0, 2, 0, 0, 0, 0, 0};
+    c.zone_w = {80, 8, 10, 2};
+    c.prof.big_answer_pct = 25; c.prof.max_addrs = 8;
+    c.min_delay = 200; c.max_delay = 5000;
+    if (c.servers.size() > 2) c.servers.resize(2);
+    for (auto &sv : c.servers) { sv.cookie_mode = CK_NONE; }
+    c.server_source = 0; c.resolv_conf = "nameserver 10.99.99.99\n";
+    c.knobs["kind_mask"] = (1 << K_SEND_DNSREC) | (1 << K_QUERY_DNSREC) | (1 << K_QUERY) | (1 << K_SEND) | (1 << K_GETADDRINFO) | (1 << K_GETHOSTBYNAME);
+    c.knobs["default_chunking"] = r.chance(0.6);
+    c.knobs["single_family"] = 1;   // with two sub-queries the final status legitimately depends on which one finishes last
+    c.sock_create_cb = 0; c.sock_config_cb = 0;
+    c.faults = 1;
   } else if (prof == "C10") {
     c.allow_cancel_in_cb = 1;
     if (r.chance(0.5)) c.udp_max_queries = 1 + (int)r.below(3);
@@ -122,6 +148,27 @@ bool profile_plan_more(const RunCfg &c, Rng &r, std::vector<Step> &plan) {
     for (auto &s : plan) {
       if (s.k == S_STALL) s.a = waits[r.below(sizeof waits / sizeof *waits)];
       if (s.k == S_REQ) s.d = (s.d / R_NREACT) * R_NREACT + (r.chance(0.8) ? R_NONE : R_NEWREQ);
+    }
+    return true;
+  }
+  if (p == "C20") {
+    // batches of concurrently queued queries, then transport steps
+    int nb = 3 + (int)r.below(8);
+    for (int b = 0; b < nb; b++) {
+      int q = 1 + (int)r.below(r.chance(0.3) ? 20 : 5);
+      if (r.chance(0.5)) { Step s; s.k = S_CHUNK; s.a = (int64_t)r.below(8); s.b = (int64_t)r.below(100000); s.c = (int64_t)r.below(6); plan.push_back(s); }
+      for (int i = 0; i < q; i++) { Step s; s.k = S_REQ; s.a = (int64_t)r.below(1000); s.b = (int64_t)r.below(1000); s.c = (int64_t)r.below(1000000); s.d = R_NONE + R_NREACT * (int64_t)r.below(50); plan.push_back(s); }
+      int adv = 2 + (int)r.below(30);
+      for (int i = 0; i < adv; i++) {
+        Step s; s.k = S_ADV; s.a = 0; s.b = r.chance(0.85) ? 0 : 1 + (int64_t)r.below(3);
+        int w = (int)r.below(100);
+        if (w < 12) { s.k = S_CHUNK; s.a = (int64_t)r.below(8); s.b = (int64_t)r.below(100000); s.c = (int64_t)r.below(6); }
+        else if (w < 20) { s.k = S_ZERODGRAM; s.a = (int64_t)r.below(8); }
+        // would-block and short counts on TCP sockets only (scope 2): the statement is about the TCP byte stream
+        else if (w < 26) { s.k = S_FAULT; s.a = r.chance(0.5) ? FC_SEND : FC_RECV; s.b = 0; s.c = 2; s.d = 0; }   // EAGAIN
+        else if (w < 30) { s.k = S_FAULT; s.a = r.chance(0.5) ? FC_SEND : FC_RECV; s.b = 0; s.c = 2 + 4 + 16 * (int64_t)r.below(20); s.d = 0; }   // short count
+        plan.push_back(s);
+      }
     }
     return true;
   }
@@ -467,10 +514,65 @@ static void c10_after(Run &run) {
     // used at all yet; the application has been told to call ares_process_pending_write() instead
     if (v->kind == FD_TCP && v->n_send_ok == 0 && c.pending_write > 0) { run.note("tfo_conn_awaiting_pending_write"); continue; }
     if (!rd) run.violate("C10", "open_socket_not_watched", "socket " + std::to_string(fd) + " is open but the application was not told to watch it for reading");
-    if (v->kind == FD_TCP && v->tstate == TS_CONNECTING && !v->tfo && !wr) run.violate("C10", "connect_pending_not_watched", "tcp socket " + std::to_string(fd) + " has a pending connect but no write interest was announced");
+    // a pending connect (plain, or fast-open once the SYN data went out) is reported by a write event, which the library
+    // needs in order to send anything queued meanwhile
+    if (v->kind == FD_TCP && v->tstate == TS_CONNECTING && (!v->tfo || v->n_send_ok > 0) && !wr) run.violate("C10", "connect_pending_not_watched", "tcp socket " + std::to_string(fd) + (v->tfo ? " (fast open, SYN data sent)" : "") + " has a pending connect but no write interest is announced");
     if (v->kind == FD_TCP && v->tstate == TS_ESTABLISHED && v->write_blocked && !wr) run.violate("C10", "partial_write_not_watched", "tcp socket " + std::to_string(fd) + " has unsent data after a short/blocked write but no write interest was announced");
     if (rd && W.readable(*v)) run.note("readable_while_watched");
   }
+}
+
+// ---------------------------------------------------------------------------------------------
+// C20: outcome does not depend on how the transport chops or delays bytes (differential)
+// ---------------------------------------------------------------------------------------------
+struct C20Snap {
+  bool valid = false;
+  std::vector<std::string> per_req;                     // token -> "cb|status|rcode|an|qname"
+  std::map<std::string, int> frames;                    // multiset of (server|tcp|qname|qtype) seen at the servers
+};
+static C20Snap g_c20_ref;
+
+static std::string c20_req_summary(const Req &r) {
+  std::string s = std::to_string(r.cb_count) + "|" + ares_status_name(r.status);
+  if (r.got.has && r.got.decode_err.empty() && r.kind <= K_SEARCH) {
+    s += "|rc" + std::to_string(r.got.msg.rcode()) + "|an" + std::to_string(r.got.msg.an.size()) + "|ns" + std::to_string(r.got.msg.ns.size()) + "|tc" + std::to_string((r.got.msg.flags & dnsref::F_TC) ? 1 : 0);
+    std::string types; for (auto &rr : r.got.msg.an) types += std::to_string(rr.type) + ",";
+    s += "|" + types;
+  } else if (r.got.has) {
+    s += "|addrs" + std::to_string(r.got.addrs.size()) + "|cn" + std::to_string(r.got.cnames.size() + r.got.aliases.size());
+  }
+  return s;
+}
+static void c20_snapshot(const Run &run, C20Snap &sn) {
+  sn = C20Snap(); sn.valid = true;
+  for (auto &r : run.reqs) sn.per_req.push_back(r.accepted ? c20_req_summary(r) : std::string("-"));
+  for (auto &t : W.txs) if (t.decode_err.empty() && !t.msg.qd.empty()) sn.frames[std::to_string(t.server) + "|" + (t.tcp ? "tcp" : "udp") + "|" + t.qname_lc + "|" + std::to_string(t.msg.qd[0].type)]++;
+}
+static void c20_end(Run &run) {
+  if (run.cfg.knob("reference")) { c20_snapshot(run, g_c20_ref); return; }
+  if (!g_c20_ref.valid) return;
+  C20Snap cur; c20_snapshot(run, cur);
+  run.note("differential_compared");
+  if (getenv("SIM_DUMP_TX")) for (size_t i = 0; i < cur.per_req.size() && i < g_c20_ref.per_req.size(); i++) fprintf(stderr, "REQ %zu ref[%s] seg[%s]\n", i, g_c20_ref.per_req[i].c_str(), cur.per_req[i].c_str());
+  if (cur.per_req.size() != g_c20_ref.per_req.size()) { run.violate("C20", "request_count_differs", "reference run issued " + std::to_string(g_c20_ref.per_req.size()) + " requests, segmented run " + std::to_string(cur.per_req.size())); return; }
+  for (size_t i = 0; i < cur.per_req.size(); i++)
+    if (cur.per_req[i] != g_c20_ref.per_req[i]) { run.violate("C20", "outcome_differs", "request " + std::to_string(i) + " (" + req_kind_name[run.reqs[i].kind] + " " + run.reqs[i].name + "): unsegmented transfer gave [" + g_c20_ref.per_req[i] + "], segmented/partial transfer gave [" + cur.per_req[i] + "]"); return; }
+  // the questions that reached any server must be the same set (how often and where a question is retransmitted depends on
+  // timing, which segmentation legitimately changes; frame integrity itself is checked on every frame by the C03 observer)
+  std::set<std::string> qa, qb;
+  for (auto &p : g_c20_ref.frames) qa.insert(p.first.substr(p.first.find('|', p.first.find('|') + 1) + 1));
+  for (auto &p : cur.frames) qb.insert(p.first.substr(p.first.find('|', p.first.find('|') + 1) + 1));
+  if (qa != qb) {
+    std::string d;
+    for (auto &x : qa) if (!qb.count(x)) { d = x + " reached a server only with unsegmented transfer"; break; }
+    if (d.empty()) for (auto &x : qb) if (!qa.count(x)) { d = x + " reached a server only with segmented transfer"; break; }
+    run.violate("C20", "questions_at_server_differ", d);
+  }
+  g_c20_ref.valid = false;
+}
+static void c20_after(Run &run) {
+  // TC handling: a truncated UDP answer must lead to a TCP transmission unless IGNTC (checked at the end through the differential and here directly)
+  (void)run;
 }
 
 // ---------------------------------------------------------------------------------------------
@@ -485,6 +587,20 @@ void profile_attach_more(Run &run) {
   run.on_done = [prev_done](Run &r, Req &q) { if (prev_done) prev_done(r, q); c03_done(r, q); c08_done(r, q); };
   auto prev_after = run.after_step;
   run.after_step = [prev_after, p](Run &r) { if (prev_after) prev_after(r); c06_after(r); if (r.cfg.mode == 0) c10_after(r); };
+  if (p == "C20") {
+    run.at_end = c20_end;
+    bool ref = run.cfg.knob("reference") != 0;
+    run.extra_step = [ref](Run &r, const Step &s) {
+      if (s.k != S_ZERODGRAM || ref) return;
+      std::vector<int> us;
+      for (int fd : W.open_sockets()) if (W.get(fd)->kind == FD_UDP && W.get(fd)->server_idx >= 0) us.push_back(fd);
+      if (us.empty()) return;
+      VFd *v = W.get(us[(size_t)s.a % us.size()]);
+      W.add_flight(FL_DGRAM, W.now_us + 1, v->fd, "", W.servers[(size_t)v->server_idx].cfg.addr, -1);
+      W.bump("net.zero_length_datagram");
+      r.note("zero_length_datagram");
+    };
+  }
   if (p == "C03") {
     run.extra_step = [](Run &r, const Step &s) { (void)r; (void)s; };
     // a share of the requests are setter-built multi-record messages
@@ -502,6 +618,7 @@ bool profile_nontrivial(const Run &run) {
   if (p == "C07") return base && get("hint_checked_with_deadline") > 0 && get("adv_with_expired") > 0;
   if (p == "C10") return base && W.stat.count("sock_udp_opened");
   if (p == "C08") return base && get("cache_hit") > 0;
+  if (p == "C20") return base && get("differential_compared") > 0 && (W.stat.count("send_short") || W.stat.count("recv_short") || W.stat.count("send_eagain_window") || W.stat.count("recv_eagain_injected") || get("zero_length_datagram") > 0 || !W.fault_fired.empty());
   if (p == "C01") return base && (get("req_from_callback") + get("cancel_in_callback") + get("cancel_with_outstanding") > 0 || !W.fault_fired.empty());
   return base;
 }
@@ -511,6 +628,7 @@ const char *profile_rule(const std::string &prof) {
   if (prof == "C06") return "runs are seeded plans over per-attempt server outcomes, option extremes (tries up to 100, timeouts 1 ms..INT_MAX, maxtimeout below the floor), list edits; non-trivial = at least one attempt's wait was checked against the envelope and traffic was processed; distinct = distinct trace-shape hash";
   if (prof == "C07") return "runs are seeded plans with silent/slow servers and sleep-exactly/overshoot/stall steps; non-trivial = the hint was compared with a real deadline and at least one loop turn ran with an expired deadline; distinct = distinct trace-shape hash";
   if (prof == "C08") return "runs are seeded sequences of requests over a small name set (case / trailing-dot / flag / type variants, every API), responses with TTL mixes and negative answers, virtual-time advances around whole-second expiry instants, server-list changes and reinit; non-trivial = at least one request was answered without any transmission (a cache hit judged by the reference model); distinct = distinct trace-shape hash";
+  if (prof == "C20") return "each seeded plan (batches of queued queries, answers up to several KiB, TC upgrades) is executed twice: once with whole-message always-writable transport and once with generated inbound chunking, partial writes, EAGAIN windows and zero-length datagrams; non-trivial = the two executions were compared and at least one short read/short write/EAGAIN/zero-length datagram actually occurred; distinct = distinct trace-shape hash of the segmented execution";
   if (prof == "C10") return "runs are seeded plans over UDP/TCP/TFO mixes, per-socket limits, failing socket callbacks and per-call socket faults; non-trivial = sockets were opened and readiness events processed; distinct = distinct trace-shape hash";
   if (prof == "C01") return "runs are seeded API histories with re-entrant callbacks, cancels, socket faults; non-trivial = traffic processed and (a request or cancel issued from a callback, a cancel with requests outstanding, or an injected fault fired); distinct = distinct trace-shape hash (sequence of step kinds, call kinds/outcomes, callback statuses)";
   return "a run is non-trivial when at least one request reached the virtual network and at least one readiness event was processed; distinct = distinct trace-shape hash (sequence of step kinds, call kinds/outcomes, callback statuses)";
